@@ -86,14 +86,23 @@ Definition rcpt_params (c : caps) (notify : bytes) : list bytes :=
 
 Definition sp_params (ps : list bytes) : bytes := flat_map (fun p => 32 :: p) ps.
 
-(* smtp.Client.Mail: None = validateLine failed, nothing is written *)
+(* smtp.go validateParamValue (repaired tree, proposed_fixes/C05-dsn-parameter-value.diff): a DSN value that is
+   going to be sent must be an esmtp-value; the byte test is taken from the source (Gen.param_bad_byte:
+   value[i] <= ' ' || value[i] == '=' || value[i] >= 0x7f) *)
+Definition param_value_ok (v : bytes) : bool := forallb (fun b => negb (param_bad_byte b)) v.
+Definition nonempty (v : bytes) : bool := negb (match v with [] => true | _ => false end).
+
+(* smtp.Client.Mail: None = validateLine or validateParamValue failed, nothing is written.  The RET value is
+   whatever was stored with SetDSNMailReturnOption; it is checked (and sent) only if DSN was advertised. *)
 Definition mail_line (c : caps) (ret : bytes) (from : bytes) : option bytes :=
-  if validate_line from then Some (bs "MAIL FROM:<" ++ from ++ bs ">" ++ sp_params (mail_params c ret))
+  if validate_line from && (negb (c_dsn c && nonempty ret) || param_value_ok ret)
+  then Some (bs "MAIL FROM:<" ++ from ++ bs ">" ++ sp_params (mail_params c ret))
   else None.
 
 (* smtp.Client.Rcpt *)
 Definition rcpt_line (c : caps) (notify : bytes) (to : bytes) : option bytes :=
-  if validate_line to then Some (bs "RCPT TO:<" ++ to ++ bs ">" ++ sp_params (rcpt_params c notify))
+  if validate_line to && (negb (c_dsn c && nonempty notify) || param_value_ok notify)
+  then Some (bs "RCPT TO:<" ++ to ++ bs ">" ++ sp_params (rcpt_params c notify))
   else None.
 
 (* smtp.Client.Hello (repaired tree): validateLine, then the byte test taken from the source
